@@ -56,7 +56,9 @@ BRANCH_NAMES = ["origin/release/1.0", "origin/release/1.10", "origin/release/1.2
                 "origin/release/1.2.1", "origin/release/1.02", "origin/release/2-9", "origin/release/2-10",
                 "origin/release/3_1", "origin/release/3_10", "origin/release/rc-2", "origin/release/rc-10",
                 # (two spellings of one version: different branches that sort alike)
-                "origin/release/1_2", "origin/release/2.9", "origin/release/3-1"]
+                "origin/release/1_2", "origin/release/2.9", "origin/release/3-1",
+                # (version numbers typed in the digits of another script: numbers all the same)
+                "origin/release/\u0663", "origin/release/\uff11.\uff15", "origin/release/\u0661\u0660.0"]
 # (a search text may span a line break of the message)
 # ... or be typed in the wrong case: it then occurs in no message and nothing is reported
 TEXTS = ["BUG-7", "BUG-71", "fix", "BUG-7 ", " change", "fix ", "\n\nrelated to BUG-7", "\nrelated", "bug-7", "Fix",
@@ -124,7 +126,9 @@ def gen_history(rng, max_commits=25):
         # tags that only END like build tags (a prefix in front of the pattern): they mark no builds
         for k in range(rng.randint(1, 3)):
             other_tags[rng.choice(["prebuild_%d_release_1_0_success", "ci/build_%d_release_2_1_success",
-                                   "rebuild_%d_release_1_2_success", "xbuild_%d_master_success"]) % (900 + k)] = rng.choice(ids)
+                                   "rebuild_%d_release_1_2_success", "xbuild_%d_master_success",
+                                   # (characters some functions take for line ends are legal in ref names)
+                                   "notes\u2028v%d", "v%d\u0085rc", "doc\u2029%d"]) % (900 + k)] = rng.choice(ids)
     if rng.random() < 0.12:
         # a fork + upstream setup: the project tracks the remote 'upstream'; 'origin' has heads of its own
         decoys = {"origin/master": rng.choice(ids)}
